@@ -54,12 +54,13 @@ def plan(tier: str, seed: int) -> Plan:
     rng = random.Random(seed)
     T = 240 if thorough else 75
     conds: List[Condition] = []
-    ml = 5 if thorough else 4
-    conds.append(Condition("index-array", "index", H, "index_array", {"maxlen": 6 if thorough else 5}, T,
-                           bounds=f"List[int] len<={6 if thorough else 5}; index any int in [min_int_index, max_int_index]"))
+    ml = 6 if thorough else 4
+    conds.append(Condition("index-array", "index", H, "index_array", {"maxlen": 8 if thorough else 5}, T,
+                           bounds=f"List[int] len<={8 if thorough else 5}; index any int in [min_int_index, max_int_index]"))
     conds.append(Condition("index-object", "indexobj", H, "index_object", {}, T,
                            bounds="object with members '0','1','-1','01' of symbolic presence; index in [-3,3]"))
-    for name, lo, hi in (("pos", 1, 3), ("neg", -3, -1), ("zero", 0, 0)):
+    for name, lo, hi in ((("pos-small", 1, 2), ("pos-large", 3, 6), ("neg-small", -2, -1), ("neg-large", -6, -3), ("zero", 0, 0)) if thorough
+                         else (("pos", 1, 3), ("neg", -3, -1), ("zero", 0, 0))):
         conds.append(Condition(f"slice-{name}", "slice", H, "slice_array", {"maxlen": ml, "steplo": lo, "stephi": hi},
                                T * 2, bounds=f"array len<={ml}; start/stop any int in range or omitted; step in [{lo},{hi}] or omitted"))
     conds.append(Condition("wrong-kind", "wrongkind", H, "wrong_kind", {}, T,
@@ -68,11 +69,12 @@ def plan(tier: str, seed: int) -> Plan:
                            bounds="slice on object, name on array, index on nested array; leaves symbolic"))
     pairs = list(catalogue.CORE_SELECTOR_QUERIES)
     if thorough:
-        qs = catalogue.selector_queries(3, rng, 160, 60)
-        sp = ["arr", "obj2", "nest1", "nest2", "nest3", "deep", "numkeys"]
+        qs = catalogue.selector_queries(3, rng, 400, 200)
+        sp = ["arr", "obj2", "nest1", "nest2", "nest3", "deep", "numkeys", "wrapobjarr"]
         for i, q in enumerate(qs):
             pairs.append((q, sp[i % len(sp)]))
             pairs.append((q, sp[(i * 3 + 1) % len(sp)]))
+            pairs.append((q, sp[(i * 5 + 2) % len(sp)]))
     else:
         qs = catalogue.selector_queries(2, rng, 6, 0)
         rng.shuffle(qs)
